@@ -341,8 +341,13 @@ impl Number {
                     && abs < (v * &Numeric::from(1000)).pow(orig.1 as i32)
                 {
                     let res = &val / &v.pow(orig.1 as i32);
-                    // tonne special case
-                    let unit = if &**(orig.0).id == "gram" && p == "mega" {
+                    // tonne special case, where the database has tonnes
+                    let megagram = format!("{}{}", p, orig.0);
+                    let unit = if &**(orig.0).id == "gram"
+                        && p == "mega"
+                        && context.lookup("tonne").is_some()
+                        && context.lookup("tonne") == context.lookup(&megagram)
+                    {
                         "tonne".to_string()
                     } else {
                         format!("{}{}", p, orig.0)
